@@ -184,6 +184,14 @@ func matrix(specs []srvSpec) []cell {
 						for _, life := range lives {
 							po := protoOps(force, h3 && force != 3, (si+force)%2 == 0)
 							other := tlsSettings[(si+1+force)%len(tlsSettings)]
+							if force == 3 && life == "changed" {
+								// HTTP/3 connections survive CloseIdleConnections: a NEW QUIC dial after the change needs the
+								// first one to have failed - start from the wrong root (or, for it, from the issuing one)
+								other = tlsSettings[2]
+								if si == 2 || si == 10 {
+									other = tlsSettings[1]
+								}
+							}
 							var ops []op
 							pk := 0
 							switch life {
@@ -351,6 +359,23 @@ func matrix(specs []srvSpec) []cell {
 					ops = cat(ops, reqs(1), rq(0, true), rq(1, true))
 					cells = append(cells, cell{Shape: fmt.Sprintf("https-h2c-f%d-%s-%s", force, ts.Name, h2c), Spec: sp, Ops: ops})
 				}
+			}
+		}
+	}
+	// a NEW QUIC connection after the TLS settings changed (HTTP/3 connections survive CloseIdleConnections, so the
+	// earlier dial must have failed, or the client be a clone): the settings of THAT moment govern it
+	for _, sp := range specs {
+		if !sp.HTTPS || !sp.H3 || sp.NeedCert || sp.NameOnly {
+			continue
+		}
+		for _, setter := range []string{"mut", "set", "set-np"} {
+			bad, good := tlsSettings[2].T, tlsSettings[1].T
+			cells = append(cells, cell{Shape: "h3redial-f3-" + setter, Spec: sp,
+				Ops: cat(tlsOps(setter, bad, nil), protoOps(3, false, true), reqs(1), tlsOps(setter, good, &bad), reqs(2),
+					tlsOps(setter, tlsSettings[5].T, &good), []op{{K: "clone"}}, reqs(1))})
+			if sp.AltSvc {
+				cells = append(cells, cell{Shape: "h3redial-alt-" + setter, Spec: sp,
+					Ops: cat(tlsOps(setter, good, nil), protoOps(0, true, true), reqs(2), tlsOps(setter, bad, &good), []op{{K: "clone"}}, reqs(2))})
 			}
 		}
 	}
@@ -568,6 +593,9 @@ func run(r *hk.Run) {
 			}
 			for _, c := range fast {
 				if strings.HasPrefix(c.Shape, "https-h2c-") && rng.Chance(12) {
+					cells = append(cells, c)
+				}
+				if strings.HasPrefix(c.Shape, "h3redial-") && rng.Chance(40) {
 					cells = append(cells, c)
 				}
 			}
